@@ -38,7 +38,9 @@ def make_case(seed, shard, i):
     members = []
     for j in range(n):
         g = lang.Gen(r, FEATURES)
-        members.append(lang.tolist(g.program(ncomp=r.randint(1, 4))))
+        prog = g.program(ncomp=r.randint(1, 4))
+        prog["comment"] = lang.random_mode_comment(r, 0.4, allow=("return-mode", "unmatched-mode", "validation-mode"))
+        members.append(lang.tolist(prog))
     rows = lang.data_rows(r)
     if not any(len(x) for x in rows):
         rows.append(["1", "2", "x", "y"])
